@@ -34,7 +34,7 @@ pub struct Case {
     pub reframe: Option<u32>,
 }
 
-pub const DRIVERS: &[&str] = &["bgzf", "bam", "bam-eager", "bam-raw", "sam.gz", "vcf.gz", "bcf", "bcf-raw", "cram", "bai", "csi", "tabix", "gzi", "fai", "crai"];
+pub const DRIVERS: &[&str] = &["bgzf", "bgzf-mt", "bam", "bam-eager", "bam-raw", "sam.gz", "vcf.gz", "bcf", "bcf-raw", "cram", "bai", "csi", "tabix", "gzi", "fai", "crai"];
 
 fn body(t: &[Ev]) -> (&[Ev], Option<&Ev>) {
     match t.last() {
@@ -71,7 +71,7 @@ struct Ctx<'a> {
 }
 
 fn check_cut(cx: &Ctx, file: &[u8], k: usize, fails: &mut Fails, partial_final_lines: &mut u64) {
-    if cx.drv.name() == "bgzf" {
+    if cx.drv.name() == "bgzf" || cx.drv.name() == "bgzf-mt" {
         // also through the reader's direct path for caller buffers of at least one block
         check_cut_with(cx, file, k, fails, partial_final_lines, 70_000);
     }
@@ -100,10 +100,10 @@ fn check_cut_with(cx: &Ctx, file: &[u8], k: usize, fails: &mut Fails, partial_fi
         }
     }
     // BGZF raw bytes: delivered bytes must be a prefix of the payload
-    if name == "bgzf" {
+    if name == "bgzf" || name == "bgzf-mt" {
         if let Some(Ev::Bytes(h, len)) = tb.first() {
             if *len >= cx.u_hashes.len() || cx.u_hashes[*len] != *h {
-                fails.push("c13.not-a-prefix:bgzf", at(format!("the {len} bytes delivered are not a prefix of the {} bytes written", cx.u_hashes.len() - 1)));
+                fails.push(format!("c13.not-a-prefix:{name}"), at(format!("the {len} bytes delivered are not a prefix of the {} bytes written", cx.u_hashes.len() - 1)));
             }
         }
         return;
@@ -236,7 +236,7 @@ fn check(drv: &dyn Driver, c: &Case) -> Verdict {
     };
     let line_oriented = matches!(name, "sam.gz" | "vcf.gz" | "fai");
     let text = if name == "fai" { file.clone() } else { u.clone() };
-    let cx = Ctx { drv, doc: &c.doc, full, u_hashes: if name == "bgzf" { prefix_hashes(&u) } else { Vec::new() }, members, frame, cram, line_oriented, text };
+    let cx = Ctx { drv, doc: &c.doc, full, u_hashes: if name == "bgzf" || name == "bgzf-mt" { prefix_hashes(&u) } else { Vec::new() }, members, frame, cram, line_oriented, text };
 
     // cut set
     let len = file.len();
@@ -304,6 +304,8 @@ pub fn property() -> Property {
         let (q, t) = match dname {
             "cram" => (160, 2500),
             "bgzf" => (240, 4000),
+            // (every cut starts and joins a reader thread)
+            "bgzf-mt" => (80, 1200),
             _ => (480, 8000),
         };
         subs.push(
@@ -312,7 +314,7 @@ pub fn property() -> Property {
                 rule: "one case = one written file cut at every byte offset (≤7000 bytes) or at all structural boundaries ±2 plus a stratified sample; evaluations counts cuts; non-trivial = the file holds ≥2 data blocks (BGZF based), ≥2 data containers (CRAM) or ≥2 entries (indexes); distinct by hash of the document".into(),
                 strategy: Box::new(move |tier| {
                     let d = drivers::by_name(dname).unwrap();
-                    let doc = if dname == "bgzf" {
+                    let doc = if dname == "bgzf" || dname == "bgzf-mt" {
                         // small payloads with several flushes so every cut is affordable, and a few large ones
                         use crate::r#gen::payload::payload;
                         prop_oneof![
